@@ -112,6 +112,13 @@ c04_h!(c04_q_text_bg, 3, 40, { let o = Point::new(2, -3); }, |t| {
     Text::new("! ", o, st).draw(t).map(|_| ())
 });
 
+// dotted rectangle border with round dots (dot size >= 4): every dot is a styled circle drawn through
+// the target; an error inside the first dot of a pair must stop the drawing
+c04_h!(c04_q_rect_dotted, 6, 12, |t| {
+    let st = PrimitiveStyleBuilder::new().stroke_color(Gray8::new(2)).stroke_width(4).stroke_style(StrokeStyle::Dotted).build();
+    Rectangle::new(P1, Size::new(13, 11)).into_styled(st).draw(t)
+});
+
 // fonts with character spacing: the gaps between characters are separate fill_solid calls when a
 // background colour is set (built-in fonts have no spacing, so only a custom font reaches these calls)
 c04_h!(c04_q_text_spaced_bg, 4, 40, { let o = point(4); let sp = 1 + small_u(1); }, |t| {
